@@ -19,3 +19,5 @@ def run(ctx):
     unique(ctx)
     contexts(ctx)          # every later stage sees the same input and parents as the first one
     read_input(ctx, ['read.only_objects_and_arrays', 'read.one_context_per_value', 'read.break_stops_reading'])
+    from ..scen_misc import titles, preset_collection
+    titles(ctx); preset_collection(ctx)
